@@ -1288,6 +1288,7 @@ package http2
 //@ assert@call:(*Conn).updateWindow#1 strmamount: arg1 == fr.stream && arg2 == fr.length
 //@ assert@call:(*Conn).updateWindow#2 connamount: arg1 == 0 && arg2 == c.maxWindow - (w0 - fr.length)
 //@ ensures rst: fr.kind == 3 ==> err != nil
+//@ ensures decok: c.dec == old(c.dec) && hpackOK(c.dec)
 
 //@ func (*HPACK).Next
 //@ props C03 C16 C17 C02 C01
@@ -1804,6 +1805,8 @@ package http2
 //@ ensures upto: r1 == nil && r0 != nil && r0.kind == FrameGoAway && r0.stream == 0 ==> c.state == 1 && c.closeRef == as(r0.fr, *GoAway).stream && c.closeRef != 0
 //@ # what is handed on is a frame for a stream, or the GOAWAY
 //@ ensures stream: r1 == nil ==> r0 != nil && r0.fr != nil && (r0.stream != 0 || r0.kind == FrameGoAway)
+//@ ensures typed: r1 == nil ==> 0 <= r0.kind && r0.kind <= 9 && frameTypeOK(r0.fr, r0.kind) && r0.length >= 0 && r0.length <= 16777215
+//@ ensures same: c.br == old(c.br) && c.c == old(c.c) && c.dec == old(c.dec) && c.maxWindow == old(c.maxWindow) && c.currentWindow == old(c.currentWindow)
 //@ ensures sticky: old(c.goAway) != 0 ==> c.goAway != 0
 
 // ---- client: handing stream frames to the requests that wait for them ----
@@ -1834,6 +1837,8 @@ package http2
 //@ ghost waiting = true
 //@ ghost@ret:(*Conn).hasReqsUpTo#1 waiting = ret0
 //@ ensures stop: r0 && local(err) == nil ==> c.state == 1 && !waiting
+//@ ensures win: c.maxWindow == old(c.maxWindow) && c.currentWindow >= c.maxWindow / 2 && c.currentWindow <= c.maxWindow
+//@ ensures decok: c.dec == old(c.dec) && hpackOK(c.dec) && c.br == old(c.br) && c.c == old(c.c)
 
 // ---- client: the write loop and how it ends ----
 
@@ -1970,3 +1975,15 @@ package http2
 //@ # default is applied to the encoder there and then - also 0 - and recorded as seen, so that writeRequest does not skip it
 //@ ensures limits: r0 == nil && isset && !gotack ==> c.maxFrameSize == gotfrm && c.maxStreams == gotstrm && (c.streamWindow == gotwin || c.streamWindow == gotwin - 4294967296)
 //@ ensures table: r0 == nil && isset && !gotack && gottbl <= 4096 ==> c.enc.maxTableSize == gottbl && c.encTableSize == gottbl && c.encTableSizeSeen == gottbl
+
+//@ func (*Conn).readLoop
+//@ props C18 C11
+//@ requires recv: c != nil && c.br != nil && c.c != nil && c.dec != nil && hpackOK(c.dec) &&
+//@ |   c.maxWindow >= 0 && c.currentWindow >= c.maxWindow / 2 && c.currentWindow <= c.maxWindow
+//@ opt noframe=true
+//@ opt noovf=true
+//@ loop 0: invariant inv: c != nil && c.br != nil && c.c != nil && c.dec != nil && hpackOK(c.dec) &&
+//@ |   c.maxWindow >= 0 && c.currentWindow >= c.maxWindow / 2 && c.currentWindow <= c.maxWindow
+//@ # this client advertises SETTINGS_ENABLE_PUSH = 0: a PUSH_PROMISE, on whatever stream, is a connection error and is never
+//@ # handed on as if it were part of a response (RFC 7540 6.6, 8.2)
+//@ assert@call:(*Conn).dispatch#1 nopush: arg1.kind != FramePushPromise
